@@ -166,7 +166,7 @@ func (e *eventV1) Redact() {
 		panic(fmt.Errorf("gomatrixserverlib: invalid event %v", err))
 	}
 	var res eventV1
-	err = json.Unmarshal(eventJSON, &res)
+	err = unmarshalEventFields(eventJSON, &res)
 	if err != nil {
 		panic(fmt.Errorf("gomatrixserverlib: populateFieldsFromJSON failed %v", err))
 	}
@@ -331,7 +331,7 @@ func newEventFromUntrustedJSONV1(eventJSON []byte, roomVersion IRoomVersion) (PD
 		}
 	}
 
-	if err := json.Unmarshal(eventJSON, res); err != nil {
+	if err := unmarshalEventFields(eventJSON, res); err != nil {
 		return nil, err
 	}
 	// "unsigned" was deleted above, but encoding/json matches member names to struct fields
@@ -396,7 +396,7 @@ func newEventFromUntrustedJSONV1(eventJSON []byte, roomVersion IRoomVersion) (PD
 
 func newEventFromTrustedJSONV1(eventJSON []byte, redacted bool, roomVersion IRoomVersion) (PDU, error) {
 	res := &eventV1{}
-	if err := json.Unmarshal(eventJSON, res); err != nil {
+	if err := unmarshalEventFields(eventJSON, res); err != nil {
 		return nil, err
 	}
 
@@ -415,7 +415,7 @@ func newEventFromTrustedJSONV1(eventJSON []byte, redacted bool, roomVersion IRoo
 
 func newEventFromTrustedJSONWithEventIDV1(eventID string, eventJSON []byte, redacted bool, roomVersion IRoomVersion) (PDU, error) {
 	res := &eventV1{}
-	if err := json.Unmarshal(eventJSON, res); err != nil {
+	if err := unmarshalEventFields(eventJSON, res); err != nil {
 		return nil, err
 	}
 
